@@ -36,11 +36,12 @@ def customByName (name : String) (args : List Nat) : Nat :=
   match name, args with
   -- `Ok(value.count() as usize)`, `count = self.0 & 0b0111_1111`
   | "usize::try_from<MatchModeAndCount>", [v] => v % 128
-  -- `range_len = end_size.saturating_add(1).saturating_sub(start_size)` (u16);
+  -- `range_len = (end_size as usize + 1).saturating_sub(start_size as usize)` (/repo fix 112aec4: the
+  -- u16 `saturating_add(1)` made the count one short for `end_size == 0xFFFF`);
   -- `val_per_word` 8 / 4 / 2 for Local{2,4,8}BitDeltas (raw 1, 2, 3), any other format → 0;
   -- `range_len / val_per_word + (range_len % val_per_word).min(1)`
   | "DeltaFormat::value_count", [fmt, startSize, endSize] =>
-    let rangeLen := min (endSize + 1) 65535 - startSize
+    let rangeLen := (endSize + 1) - startSize
     let vpw := if fmt = 1 then 8 else if fmt = 2 then 4 else if fmt = 3 then 2 else 0
     if vpw = 0 then 0 else rangeLen / vpw + min (rangeLen % vpw) 1
   -- `flag == 0`: `embedded_peak_tuple() (0x8000) as usize * axis_count`, else `intermediate_region() (0x4000)`
